@@ -70,7 +70,26 @@ def block_seeded():
     return "\n".join(out)
 
 
-blocks = {"fixes": block_fixes, "open": block_open, "evidence": block_evidence, "mutations": block_mutations, "seeded": block_seeded}
+def block_benign():
+    out = ["| refactor | what was changed | tests pass | sanity (HEAD / changed) | check silent (exit 0) |", "|---|---|---|---|---|"]
+    n = ok = 0
+    for d in sorted(glob.glob("benign/C*-*")):
+        if not os.path.exists(f"{d}/meta.json"):
+            continue
+        m = json.load(open(f"{d}/meta.json"))
+        title = ""
+        if os.path.exists(f"{d}/notes.md"):
+            lines = [l.strip() for l in open(f"{d}/notes.md").read().splitlines() if l.strip()]
+            title = (lines[0].lstrip("# ") if lines else "")[:160].replace("|", "/")
+        n += 1
+        ok += 1 if m.get("silent") else 0
+        note = " (after the correction noted below)" if m.get("note") else ""
+        out.append(f"| {os.path.basename(d)} | {title} | {'yes' if m.get('tests_pass') else 'NO'} | {m.get('sanity_head')} / {m.get('sanity_changed')} | {'yes' if m.get('silent') else '**NO**'}{note} |")
+    out.append(f"\n{ok} of {n} behaviour-preserving refactors leave their check silent.")
+    return "\n".join(out)
+
+
+blocks = {"benign": block_benign, "fixes": block_fixes, "open": block_open, "evidence": block_evidence, "mutations": block_mutations, "seeded": block_seeded}
 s = open("DESIGN.md").read()
 for name, fn in blocks.items():
     pat = re.compile(rf"(<!-- BEGIN:{name} -->\n).*?(<!-- END:{name} -->)", re.S)
